@@ -2,6 +2,7 @@ import Pymc.Proofs.FailoverDt
 import Pymc.Proofs.FailoverDemo
 import Pymc.Proofs.HashCallExamples
 import Pymc.Proofs.HashCallSetExamples
+import Pymc.Proofs.HashPooledCallExamples
 /-!
 # C13 — failover: bounded probing, eviction, rerouting, recovery
 
@@ -749,5 +750,154 @@ theorem C13_hash_setmany_ignoreexc_counterexample :
     by decide +kernel, by decide +kernel, by decide +kernel⟩
 
 end hashmany
+
+/-! ## `HashClient ∘ PooledClient ∘ Client`: `use_pooling=True`
+
+Model: `Pymc/Model/HashPooledCall.lean` — the bookkeeping of this file composed with the pool bracket composed with
+`Client.call` (`Pymc/Model/HashInner.lean` is the failover code of `HashCall.lean` with the object registered in
+`self.clients` as a parameter; here it is a `PooledClient`, its state the pool `PooledCall.St`, a contact one
+`PooledCall.callP` without `ignore_exc`).  A history is a list of single-key calls `(routing key, operation, script, time,
+release time of the pool)`.  What the `PooledClient` method returns or raises determines the `Outcome` exactly as for the
+plain client (`HashPooledCall.outcomeOfP` = `HashCall.outcomeOf` of the result of the pooled call; the pool's own
+`RuntimeError("Too many objects")` — unreachable in sequential use with `max_pool_size ≥ 1`,
+`C09_hashpooled_never_too_many` — is an `Exception` that is not an `OSError`: `othererror`).  Forgetting the pools
+(`HashInner.St.proj`) turns a composed run into a run of the abstract model — so everything proved above about `run`
+holds for the pooling `HashClient`, with the environment computed from the connection scripts. -/
+section hashpooled
+
+/-- C13 (`use_pooling=True`, the environment): the outcome the abstract model is given for a call is `HashCall.outcomeOf`
+of what the `PooledClient` method returned or raised (`othererror` for the pool's `RuntimeError`), `ok` when nothing was
+invoked. -/
+theorem C13_hashpooled_outcome (pcfg : Pooled.Cfg) (ob : HashPooledCall.HPObs pcfg) :
+    HashInner.outcomeOfObs ob =
+      match (ob.inner : Option PooledCall.PObs) with
+      | some po => HashPooledCall.outcomeOfP po.res
+      | none => .ok := by
+  unfold HashInner.outcomeOfObs
+  cases ob.inner with
+  | none => rfl
+  | some po => exact HashPooledCall.outcomeOf_pooled po
+
+/-- C13 (`use_pooling=True`, one call).  After any composed history, for the next call: if `check_key_helper` rejects its
+key, the call raises `MemcacheIllegalInputError` and leaves the whole state alone; otherwise forgetting the pools
+commutes with the step — the bookkeeping state after the composed call, its result (`HashInner.absRes`) and its contact
+log are those of the abstract `stepOp` for the event `_run_cmd(rk)` at the same time, in the environment in which the
+server does what the pooled call did. -/
+theorem C13_hashpooled_step_projection (ccfg : Wire.Cfg) (pcfg : Pooled.Cfg) (c : Cfg) (route : List Srv → Key → Option Srv)
+    (hlaw : RouteLaw route) (servers : List Srv) (t0 : Time) (calls : List (HashPooledCall.HPCall Key))
+    (hc : HashPooledCall.HPCall Key) :
+    let st := (HashPooledCall.runHP ccfg pcfg c route (HashPooledCall.init pcfg servers t0) 0 calls).1
+    let out := HashPooledCall.callHP ccfg pcfg c route st calls.length hc.now hc.fin hc.rk hc.call hc.sc
+    (HashCall.keyOk ccfg hc.call = false → out = (st, { res := .illegalKey })) ∧
+    (HashCall.keyOk ccfg hc.call = true →
+      stepOp c route st.proj { now := hc.now, env := fun _ => HashInner.outcomeOfObs out.2, op := .runCmd hc.rk } =
+        (out.1.proj, HashInner.absRes (HashPooledCall.pooled pcfg) c out.2.res, HashInner.contactsOfObs hc.now out.2)) := by
+  intro st out
+  have hcov := (HashInner.runG_proj (I := HashPooledCall.pooled pcfg) ccfg c route hlaw (HashPooledCall.init pcfg servers t0) 0 calls
+    (HashInner.cover_init _ servers t0)).2
+  exact HashInner.callG_proj ccfg c route hlaw st calls.length hc.now hc.fin hc.rk hc.call hc.sc hcov
+
+/-- C13 (`use_pooling=True`, runs).  A composed run from a fresh pooling `HashClient` is a run of the abstract model from
+`init`: the events are the calls whose key passes `check_key_helper` (`HashInner.eventsOf`: same times, same routing
+keys, `_run_cmd`, the environment of each being the outcome of its pooled call, `C13_hashpooled_outcome`); the
+bookkeeping state at the end is the projection of the composed state, and the per-event results and contact logs are
+those of the composed observations (`HashInner.absOuts`). -/
+theorem C13_hashpooled_projection (ccfg : Wire.Cfg) (pcfg : Pooled.Cfg) (c : Cfg) (route : List Srv → Key → Option Srv)
+    (hlaw : RouteLaw route) (servers : List Srv) (t0 : Time) (calls : List (HashPooledCall.HPCall Key)) :
+    let r := HashPooledCall.runHP ccfg pcfg c route (HashPooledCall.init pcfg servers t0) 0 calls
+    run c route (init servers t0) (HashInner.eventsOf calls r.2) = (r.1.proj, HashInner.absOuts c calls r.2) := by
+  intro r
+  have h := (HashInner.runG_proj (I := HashPooledCall.pooled pcfg) ccfg c route hlaw (HashPooledCall.init pcfg servers t0) 0 calls
+    (HashInner.cover_init _ servers t0)).1
+  rw [HashInner.init_proj] at h
+  exact h
+
+/-- non-vacuity: the six-call history `HashPooledCallExamples.demoCalls` (server 0 serves, fails with `EPIPE` — the inner
+client is destroyed —, refuses the retry and the final probe, is evicted; the key is rerouted to server 1; server 0 is
+brought back with a fresh `PooledClient`) gives rise to six abstract events whose environments are
+`ok / oserror / oserror / oserror / ok / ok`, and `Failover.run` on them ends in the same bookkeeping state with the
+same contact log. -/
+example :
+    (HashInner.eventsOf HashPooledCallExamples.demoCalls
+        (HashPooledCall.runHP {} HashPooledCallExamples.pool1 HashCallExamples.cfgStrict prefRoute
+          (HashPooledCall.init HashPooledCallExamples.pool1 [0, 1] 0) 0 HashPooledCallExamples.demoCalls).2).map
+        (fun e => (e.now, e.env 0, e.env 1)) =
+      [(0, .ok, .ok), (1, .oserror, .oserror), (3, .oserror, .oserror), (5, .oserror, .oserror), (6, .ok, .ok), (12, .ok, .ok)] ∧
+    run HashCallExamples.cfgStrict prefRoute (init [0, 1] 0)
+        (HashInner.eventsOf HashPooledCallExamples.demoCalls
+          (HashPooledCall.runHP {} HashPooledCallExamples.pool1 HashCallExamples.cfgStrict prefRoute
+            (HashPooledCall.init HashPooledCallExamples.pool1 [0, 1] 0) 0 HashPooledCallExamples.demoCalls).2) =
+      ({ nodes := [1, 0], failed := [], dead := [], lastDeadCheck := 12 },
+       [(.value, [(0, 0, .ok)]), (.raisedServerError 0 .oserror, [(0, 1, .oserror)]),
+        (.raisedServerError 0 .oserror, [(0, 3, .oserror)]), (.raisedServerError 0 .oserror, [(0, 5, .oserror)]),
+        (.value, [(1, 6, .ok)]), (.value, [(0, 12, .ok)])]) :=
+  HashPooledCallExamples.demo_projection
+
+/-- C13 (`use_pooling=True`, no internal bookkeeping error).  In every composed history no call ends in `internalError`:
+every dict `pop` / `del` / lookup of the failover code — including `self.clients[server]` — and every `remove_node` finds
+its key. -/
+theorem C13_hashpooled_no_internal_error (ccfg : Wire.Cfg) (pcfg : Pooled.Cfg) (c : Cfg) (route : List Srv → Key → Option Srv)
+    (hlaw : RouteLaw route) (servers : List Srv) (t0 : Time) (calls : List (HashPooledCall.HPCall Key)) :
+    ∀ ob ∈ (HashPooledCall.runHP ccfg pcfg c route (HashPooledCall.init pcfg servers t0) 0 calls).2,
+      HashInner.isInternalError ob.res = false := by
+  intro ob hob
+  cases hres : HashInner.isInternalError ob.res
+  · rfl
+  · exfalso
+    have hres' : ob.res = .internalError := by
+      cases h : ob.res <;> simp [h, HashInner.isInternalError] at hres ⊢
+    obtain ⟨i, hi⟩ := List.getElem?_of_mem hob
+    have hlen := HashInner.runG_length (I := HashPooledCall.pooled pcfg) ccfg c route (HashPooledCall.init pcfg servers t0) 0 calls
+    have hlt : i < calls.length := by
+      rw [← hlen]
+      exact (List.getElem?_eq_some_iff.mp hi).1
+    have hproj := C13_hashpooled_projection ccfg pcfg c route hlaw servers t0 calls
+    have hmem := HashInner.mem_absOuts c calls _ i calls[i] ob (List.getElem?_eq_getElem hlt) hi (by rw [hres']; rfl)
+    simp only at hproj
+    have hout : (HashInner.absRes (HashPooledCall.pooled pcfg) c ob.res, HashInner.contactsOfObs calls[i].now ob) ∈
+        (run c route (init servers t0) (HashInner.eventsOf calls
+          (HashPooledCall.runHP ccfg pcfg c route (HashPooledCall.init pcfg servers t0) 0 calls).2)).2 := by
+      rw [hproj]; exact hmem
+    have := C13_no_internal_error c route hlaw servers t0 _ _ hout
+    rw [hres'] at this
+    exact this rfl
+
+/-- C13 (`use_pooling=True`, both window bounds).  In every composed history whose clock never goes back, for every server
+`s`: among the contacts to `s` during which the pooled call raised an `OSError` (times `F`, chronological —
+`HashInner.contactLog` is the list of all contacts with the outcomes of the real pooled calls), any window
+`[t, t + retry_timeout]` contains at most two; and among those made since the last contact to `s` that returned
+normally, any window `[t, t + dead_timeout]` contains at most `retry_attempts + 2`. -/
+theorem C13_hashpooled_probing_windows (ccfg : Wire.Cfg) (pcfg : Pooled.Cfg) (c : Cfg) (route : List Srv → Key → Option Srv)
+    (hlaw : RouteLaw route) (hlt : c.rt < c.dt) (servers : List Srv) (t0 : Time) (calls : List (HashPooledCall.HPCall Key))
+    (hch : HashInner.ChronoCalls t0 calls) (s : Srv) :
+    let L := HashInner.contactLog calls (HashPooledCall.runHP ccfg pcfg c route (HashPooledCall.init pcfg servers t0) 0 calls).2
+    (∀ t : Time, countIn t c.rt (oserrTimes s L) ≤ 2) ∧
+    (∀ t : Time, countIn t c.dt (oserrTimes s (sinceLastOk s L)) ≤ c.ra + 2) := by
+  intro L
+  have hproj := C13_hashpooled_projection ccfg pcfg c route hlaw servers t0 calls
+  simp only at hproj
+  have hL : L = contactsOf (run c route (init servers t0) (HashInner.eventsOf calls
+      (HashPooledCall.runHP ccfg pcfg c route (HashPooledCall.init pcfg servers t0) 0 calls).2)).2 := by
+    rw [hproj]
+    exact (HashInner.runG_contactLog (I := HashPooledCall.pooled pcfg) ccfg c route (HashPooledCall.init pcfg servers t0) 0 calls).symm
+  have hchr := HashInner.chrono_eventsOf t0 calls
+    (HashPooledCall.runHP ccfg pcfg c route (HashPooledCall.init pcfg servers t0) 0 calls).2 hch
+  have hns : NoSetManyUnderIgnoreExc c (HashInner.eventsOf calls
+      (HashPooledCall.runHP ccfg pcfg c route (HashPooledCall.init pcfg servers t0) 0 calls).2) :=
+    fun _ e he => HashInner.eventsOf_runCmd calls _ e he
+  rw [hL]
+  exact ⟨(C13_le_two_per_rt_window c route hlaw hlt servers t0 _ hchr hns s).2,
+    (C13_le_ra_plus_two_per_dt_window c route hlaw hlt servers t0 _ hchr hns s).2⟩
+
+/-- non-vacuity: the demo history is chronological, and the `OSError` contacts to server 0 happen at 1, 3, 5. -/
+example : HashInner.ChronoCalls 0 HashPooledCallExamples.demoCalls ∧ RouteLaw prefRoute ∧
+    HashCallExamples.cfgStrict.rt < HashCallExamples.cfgStrict.dt ∧
+    oserrTimes 0 (HashInner.contactLog HashPooledCallExamples.demoCalls
+      (HashPooledCall.runHP {} HashPooledCallExamples.pool1 HashCallExamples.cfgStrict prefRoute
+        (HashPooledCall.init HashPooledCallExamples.pool1 [0, 1] 0) 0 HashPooledCallExamples.demoCalls).2) = [1, 3, 5] :=
+  ⟨by simp [HashInner.ChronoCalls, HashPooledCallExamples.demoCalls, HashCallExamples.demoCalls, HashPooledCallExamples.toG],
+    prefRoute_law, by decide, by decide +kernel⟩
+
+end hashpooled
 
 end Failover
